@@ -33,7 +33,8 @@ def seed_simple():
     objs = {}
     ff, _ = F.type1_fontfile([(65, "A"), (66, "B"), (67, "uni0043")])
     tu, _ = F.tounicode_cmap({65: "a", 66: "bb", 68: "d"})
-    objs[20] = D(Type=N("Font"), Subtype=N("Type1"), BaseFont=N("Sim1"), FirstChar=65, LastChar=70,
+    # (names with #xx escapes, in an object and in a content stream: a file or stream may be cut between the two digits)
+    objs[20] = D(Type=N("Font"), Subtype=N("Type1"), BaseFont=N("Sim 1(x)"), FirstChar=65, LastChar=70,
                  Widths=[500, 600, 700, 250, R(26), 333], ToUnicode=R(22),
                  Encoding=D(Type=N("Encoding"), BaseEncoding=N("WinAnsiEncoding"), Differences=[65, N("alpha"), N("beta"), 70, N("fi")]),
                  FontDescriptor=R(21))
@@ -48,7 +49,7 @@ def seed_simple():
     objs[26] = 444
     objs[27] = Stream({}, b"800 0 0 0 800 800 d1 0 0 800 800 re f")
     res = {b"Font": {b"F1": R(20), b"F2": R(24), b"F3": R(25)}, b"ProcSet": [N("PDF"), N("Text")]}
-    c1 = b"BT /F1 12 Tf 1 0 0 1 50 700 Tm (ABCDEF) Tj 0 -14 Td [(AB) -250 (C) 100 (D)] TJ /F2 10 Tf 14 TL T* (Hello) ' ET"
+    c1 = b"BT /F#31 12 Tf 1 0 0 1 50 700 Tm (ABCDEF) Tj 0 -14 Td [(AB) -250 (C) 100 (D)] TJ /F2 10 Tf 14 TL T* (Hello) ' ET"
     c2 = b"q 0.5 0 0 0.5 10 10 cm BT /F3 20 Tf 100 100 Td (AA) Tj ET Q BT /F1 9 Tf 2 Tc 3 Tw 90 Tz 1 Ts 50 50 Td 1 2 (A B) \" ET BT /F1 8 Tf 20 400 Td 0 -10 TD (L1) Tj T* (L2) Tj 1 Tr (L3) ' 2 0 (L4) \" ET"
     _pages(objs, [c1, c2], res, extra_page={b"Rotate": 90})
     return {"name": "simple", "objs": objs, "form": "table"}
